@@ -62,6 +62,11 @@ CLAIMED["C16"] = dict(
    text="display of every value of the enumerated spaces - float bit-pattern classes (thorough: every finite binary32), boundary integers, reduced ratios, every Unicode scalar value as a character, every identifier of length <= 3 over a 21-character alphabet, results of the number grid, every value tree up to 5 (6) nodes with proper lists, dotted tails and (literal/mutable, empty) vectors - is fed back through the real lexer / read_literal (atoms) and through eval of the quoted text, and must yield a structurally equal value of the same exactness; list formatting and injectivity on the tree set are checked.",
    note="round trip for every enumerated value implies injectivity on that set; strings, non-finite reals and symbols needing bars are outside the property",
    design="7/C16")
+CLAIMED["C12"] = dict(
+   technique="bounded exhaustive enumeration of all import-set terms up to nesting depth 3 with all admissible argument lists, each evaluated on the real interpreter against an independent algebra",
+   text="Every import-set term of nesting depth <= 3 over a 4-export library (only/except with every subset of the current names, both prefixes, rename with every injective partial map of <= 2 names incl. swaps and chains in both pair orders), with the library supplied natively, as registered source and as a file, and every ordered pair of depth-<=1 terms in one declaration: (import ...) is evaluated in an empty environment of the real interpreter and the resulting bindings must be exactly the name -> export map the algebra yields; each declaration runs on two interpreter instances that must agree.",
+   note="hash seeds cannot be enumerated or injected by an add-only hook: two instances per declaration sample that dimension; the term space is exhaustive",
+   design="7/C12")
 NOT_YET = "check not built yet (build in progress, see DESIGN.md section 12)"
 NA = {}
 
